@@ -382,6 +382,59 @@ def periodic(ck, sh, mm, gname):
                 timeout_ms=20000 if ck.tier == 'quick' else 120000)
 
 
+def periodic_zenith(ck, sh, mm, gname):
+    """(D') directions 360 degrees apart in the ZENITH angle give identical rows too (35 / 395 / -325 degrees; over ground these all
+    point into the upper hemisphere), for all currents in the box; E_theta / E_phi compared within 1e-9 of a sound bound of |E|
+    (the direction cosines of 35 and 395 degrees differ in the last bits)."""
+    M = sh.mininec
+
+    def fn():
+        m = catalogue.build(M, gname)
+        n = len(m.pulses)
+        I = _box_currents(n, 1.0)
+        _set_currents(m, I)
+        m.power = 1.0
+        with symx.object_arrays():
+            m.compute_far_field(M.Angle(-325.0, 360.0, 3), M.Angle(20.0, 10.0, 1))
+            ff = m.far_field
+        k = 2 * math.pi / (299.8 / float(m.f))
+        bound = farfield.G0 * k / 2 * sum(float(np.linalg.norm(np.asarray(p.point, dtype=float) - np.asarray(p.ends[0], dtype=float)))
+                                          + float(np.linalg.norm(np.asarray(p.ends[1], dtype=float) - np.asarray(p.point, dtype=float)))
+                                          for p in m.pulses) * 2 * 1.5
+        return dict(inputs=dict(I=I), ff=ff, bound=bound)
+
+    def goals(o):
+        ff = o['ff']
+        g = []
+        for j, nm in ((0, '-325'), (2, '395')):
+            ds = []
+            for arr in (ff.e_theta, ff.e_phi):
+                d = SC.lift(arr[0][j]) - SC.lift(arr[0][1])
+                if d.dr is not None:
+                    raise symx.HarnessError('zenith periodicity: unexpected denominators')
+                ds += [d.nr, d.ni]
+            g.append(('the row at zenith %s degrees is the row at 35 degrees' % nm, z3.Not(poly.relaxation_query(ds, {}, Fraction(o['bound']) / 10 ** 9, default=1))))
+        return g
+
+    def replay(c, gn, out):
+        m = catalogue.build(mm, gname)
+        I = np.array([complex(x) for x in c['I']])
+        if np.abs(I).max() < 1e-6:
+            I = np.array([complex(1 + 0.3 * k, 0.5 - 0.2 * k) for k in range(len(I))])
+        m.current, m.power = I, 1.0
+        m.compute_far_field(mm.Angle(-325.0, 360.0, 3), mm.Angle(20.0, 10.0, 1))
+        f = m.far_field
+        sc = max(abs(f.e_theta).max(), abs(f.e_phi).max(), 1e-300)
+        for j, nm in ((0, -325.0), (2, 395.0)):
+            if abs(f.e_theta[0][j] - f.e_theta[0][1]) > 1e-9 * sc or abs(f.e_phi[0][j] - f.e_phi[0][1]) > 1e-9 * sc \
+                    or not np.allclose(f.gain[j][0], f.gain[1][0], rtol=0, atol=1e-6):
+                return ('C10:periodic:360:zenith', '%s: the rows at zenith 35 and %g degrees (azimuth 20) differ: E_theta %r / %r, gains %s / %s'
+                        % (gname, nm, complex(f.e_theta[0][1]), complex(f.e_theta[0][j]), list(f.gain[1][0]), list(f.gain[j][0])), dict(kind='periodic-zenith'))
+        return None
+    prove_paths(ck, 'periodic-zenith-%s' % gname, fn, goals, replay, max_paths=64, fork_policy='assume', twin_timeout_ms=300, prefer_true=('compute_far_field',),
+                timeout_ms=20000 if ck.tier == 'quick' else 120000)
+
+
 def rotation_lemma(ck, sh, mm):
     """|cX+sY|^2 + |-sX+cY|^2 = |X|^2 + |Y|^2 for all complex X, Y and c^2 + s^2 = 1."""
     def fn():
@@ -404,12 +457,12 @@ def main(args):
         geos = ['G1', 'G2', 'G7', 'G9', 'G17', 'G18']
         parts = [('radiation_sum', (g, 1.0)) for g in geos]
         parts += [('tables', (g,)) for g in ('G1', 'G8')]
-        parts += [('periodic', (g,)) for g in ('G2', 'G9')] + [('rotation_lemma', ())]
+        parts += [('periodic', (g,)) for g in ('G2', 'G9')] + [('rotation_lemma', ())] + [('periodic_zenith', (g,)) for g in ('G2', 'G9')]
     else:
         geos = ['G1', 'G2', 'G5', 'G12', 'G13', 'G17', 'G7', 'G8', 'G9', 'G10', 'G14', 'G18']
         parts = [('radiation_sum', (g, s)) for g in geos for s in (1.0, 1e3, 1e-3)]
         parts += [('tables', (g,)) for g in ('G1', 'G2', 'G8', 'G9')]
-        parts += [('periodic', (g,)) for g in ('G1', 'G2', 'G5', 'G9', 'G14')] + [('rotation_lemma', ())]
+        parts += [('periodic', (g,)) for g in ('G1', 'G2', 'G5', 'G9', 'G14')] + [('rotation_lemma', ())] + [('periodic_zenith', (g,)) for g in ('G1', 'G2', 'G8', 'G9', 'G14')]
     run_parallel(ck, 'checks.c10', parts)
     ck.assumptions += ['geometry: catalogue members (concrete); pulse currents arbitrary complex in a box; power, requested '
                        'power, distance arbitrary positive reals; azimuth symbolic via the rational circle parametrisation '
